@@ -75,6 +75,9 @@ def stmtOfJson (j : Json) : Except String MatchStmt := do
   | "actionCtor" =>
     pure (.actionCtor (← (← j.getObjVal? "name").getStr?) (← kvsOfJson (← j.getObjVal? "ctor_args"))
             (← (← j.getObjVal? "member").getStr?) args)
+  | "flowCtor" =>
+    pure (.flowCtor (← (← j.getObjVal? "flow_id").getStr?) (← kvsOfJson (← j.getObjVal? "param_defaults"))
+            (← (← j.getObjVal? "member").getStr?) args)
   | "bare" =>
     pure (.bare (← (← j.getObjVal? "name").getStr?) (← (← j.getObjVal? "is_lower").getBool?) args)
   | _ => throw s!"bad stmt form {form}"
@@ -99,7 +102,8 @@ def handle (op : String) (j : Json) : Except String Json := do
           else throw "bad start_args"
       | _ => pure []
     let startArgs := fun u => (sa.find? (·.1 == u)).map (·.2)
-    pure (evResToJson (eventScore rx startArgs ev ref prio))
+    pure (evResToJson (if (j.getObjVal? "gate").toOption == some (Json.bool true)
+      then matchingScore rx startArgs ev ref prio else eventScore rx startArgs ev ref prio))
   | "stmt" =>
     let st ← stmtOfJson (← j.getObjVal? "stmt")
     pure (match refEvent st with
